@@ -75,11 +75,11 @@ Theorem aiw_initial_refuted : exists w0 w_min w_max : R,
   ~ (w_min <= iter_sched (fun t _ => aiw_written w_min w_max [true]) 0 w0 <= w_max).
 Proof. exists (7 / 10), (8 / 10), (9 / 10). simpl. repeat split; try lra; intros [H _]; lra. Qed.
 
-(* The w_min setter does not compare with w_max, so an inverted (empty) range is accepted
-   (AIWPSO(hyperparams={'w_min': 0.95}) with the default w_max = 0.9): the hypothesis w_min <= w_max of
-   aiw_range is necessary. *)
-Theorem aiw_inverted_refuted : exists n_agents p w_max w_min : R,
-  0 <= w_min /\ 0 <= w_max /\ 0 <= p <= n_agents /\ 0 < n_agents /\
+(* Remark (not a refutation of C15): the hypothesis w_min <= w_max of aiw_range cannot be dropped -- with an
+   inverted, i.e. empty, declared range no value can be "in range".  C15 speaks about valid settings only; that
+   the w_min setter accepts w_min > w_max is a matter of the guards (property C14). *)
+Theorem aiw_range_needs_ordered_bounds : exists n_agents p w_max w_min : R,
+  0 <= p <= n_agents /\ 0 < n_agents /\ w_max < w_min /\
   ~ (w_min <= aiwpso_w_next n_agents p w_max w_min <= w_max).
 Proof.
   exists 1, 0, (9 / 10), (95 / 100).
@@ -272,8 +272,12 @@ Proof. unfold ihs_PAR_next. field. Qed.
 Example ihs_bw_defined_default : ihs_bw_defined 10 1 3 0.
 Proof. apply ihs_bw_range; lra. Qed.
 
-Example ihs_bw_first_is_bw_max : forall bw_max bw_min n_it : R, ihs_bw_next bw_max bw_min n_it 0 = bw_max.
-Proof. intros. unfold ihs_bw_next. rewrite Rmult_0_r, exp_0. ring. Qed.
+Example ihs_bw_first_is_bw_max : forall bw_max bw_min n_it : R, n_it <> 0 -> ihs_bw_next bw_max bw_min n_it 0 = bw_max.
+Proof.
+  intros. unfold ihs_bw_next.
+  match goal with |- context [exp ?x] => replace x with 0 by (field; assumption) end.
+  rewrite exp_0. ring.
+Qed.
 
 Example wca_one_iteration_reaches_zero : forall d : R, wca_d_max_next d 1 = 0.
 Proof. intro d. unfold wca_d_max_next. field. Qed.
